@@ -250,10 +250,10 @@ static void c_varbounds(void* u, void* api) { for (auto& b : cm_of(u).vbounds) N
 static void c_conbounds(void* u, void* api) {
   for (auto& c : cm_of(u).cons) {
     NLW2_AlgConRange_C r;
-    // as the documented skeleton does: either {k, cvar} or {L, U}; the other pair keeps a neutral value
-    r.L = 0; r.U = 0; r.k = 0; r.cvar = 0;
-    if (c.b.kind == 5) { r.k = c.b.cflags; r.cvar = c.b.cvar - 1; }
-    else { r.L = c.b.lb; r.U = c.b.ub; }
+    // as the documented skeleton does: either {k > 0, cvar} or {k = 0, L, U}; the members that do not
+    // apply are indeterminate in a C client - here fixed values that would show in the file if they were used
+    if (c.b.kind == 5) { r.k = c.b.cflags; r.cvar = c.b.cvar - 1; r.L = 12345.5; r.U = -777.25; }
+    else { r.k = 0; r.cvar = 1000003; r.L = c.b.lb; r.U = c.b.ub; }
     NLW2_WriteAlgConRange(api, &r);
   }
 }
